@@ -35,7 +35,8 @@ theorem lockFree {c : Nat} {s : S} (h : Reachable c s) : LockFree s := by
 
 /-! ### capacity invariant on `used` -/
 
-def CapInv (s : S) : Prop := ∀ x, s.used x ≤ s.cap x
+/-- as long as `SetCap` has not been called, no limiter has more charged to it than its capacity -/
+def CapInv (s : S) : Prop := s.setCaps = 0 → ∀ x, s.used x ≤ s.cap x
 
 theorem service_used_le (cap : Nat → Nat) (chain : Nat → List Nat) (closed : Nat → Bool) (p : Nat)
     (used : Nat → Nat) (w : List Req) (h : ∀ x, used x ≤ cap x) :
@@ -54,23 +55,25 @@ theorem service_used_le (cap : Nat → Nat) (chain : Nat → List Nat) (closed :
 
 theorem capInv {c : Nat} {s : S} (h : Reachable c s) : CapInv s := by
   induction h with
-  | init => intro x; exact Nat.zero_le _
+  | init => intro _ x; exact Nat.zero_le _
   | step s s' _ st ih =>
     cases st with
-    | useGrant l amt hl ha h0 h1 h2 h3 => exact charge_le s.cap s.used _ _ ih h3
+    | useGrant l amt hl ha h0 h1 h2 h3 => intro hz; exact charge_le s.cap s.used _ _ (ih hz) h3
     | newChild p c hp h0 h1 =>
-      intro x
+      intro hz x
       show upd s.used s.n 0 x ≤ upd s.cap s.n c x
       unfold upd
       split
       · exact Nat.zero_le _
-      · exact ih x
+      · exact ih hz x
     | tickRuns h1 h0 =>
+      intro hz
       apply service_used_le
       intro x
       split
       · exact Nat.zero_le _
-      · exact ih x
+      · exact ih hz x
+    | setCap l c hl h0 => intro hz; exact absurd hz (Nat.succ_ne_zero _)
     | _ => exact ih
 
 /-! ### every request is waiting or has exactly one answer -/
@@ -168,6 +171,7 @@ theorem exactlyOnce_step (s s' : S) (h : ExactlyOnce s) (st : Step s s') : Exact
     simp only [doTickRuns, List.count_append, List.map_append]
     omega
   | doneReceived => exact h
+  | setCap => exact h
   | drain h1 h0 =>
     intro id
     have hid := h id
